@@ -122,13 +122,17 @@ class Child:
 
 
 class World:
-    def __init__(self, base, use_writer, reuse=False, entry="moddir"):
+    def __init__(self, base, use_writer, reuse=False, entry="moddir", symlink=False):
+        self.symlink = symlink    # the source path is a symbolic link to a file kept elsewhere (rewritten in place)
         self.entry = entry
         self.reuse = reuse        # process p of the model is ONE long-lived OS process (until it crashes)
         self.resting = {}
         self.root = tempfile.mkdtemp(prefix="mv-mf-", dir=base)
         os.makedirs(os.path.join(self.root, "src"))
         self.src = os.path.join(self.root, "src", "t.html")
+        if symlink:
+            os.makedirs(os.path.join(self.root, "store"))
+            os.symlink(os.path.join(self.root, "store", "t.html"), self.src)
         self.moddir = os.path.join(self.root, "mods")
         self.modpath = os.path.join(self.moddir, "t.html.py")
         self.now = 1
@@ -291,7 +295,8 @@ def run_history(args):
     seed, steps, maxprocs, use_writer, crash_prob, base, plan = args
     rng = random.Random(seed)
     entry = ENTRIES[(seed // 2) % 4] if plan is None else (plan[2] if len(plan) > 2 else "moddir")
-    w = World(base, use_writer, reuse=bool(seed % 2) or (plan is not None and plan[0] == "same"), entry=entry)
+    symlink = (seed % 3 == 0) if plan is None else (sum(map(ord, repr(plan))) % 3 == 0)
+    w = World(base, use_writer, reuse=bool(seed % 2) or (plan is not None and plan[0] == "same"), entry=entry, symlink=symlink)
     events = []
 
     def add(evs):
